@@ -5,7 +5,7 @@ import numpy as np
 
 from checks import common, mahal
 from checks.common import case
-from symx import core, slicer, stubs
+from symx import core, slicer, stubs, harness
 from symx.npproxy import NP
 
 FUNCS = ['metric_learn.lsml._BaseLSML._fit (whole, for the prior-returned clause)', '_BaseLSML._comparison_loss', '_BaseLSML._total_loss',
@@ -111,7 +111,7 @@ def loss_grad_case(nq, d, weights):
   return fn
 
 
-class _Self:
+class _Self(harness.StandIn):
   """stands in for the estimator inside the sliced loop body: loss and gradient are uninterpreted"""
   def __init__(self, ctx, d, tol):
     self.ctx, self.d = ctx, d
